@@ -130,7 +130,7 @@ def load_known():
 
 
 def write_replay(pid, signature, message, case, seed, tier):
-    d = os.path.join(HERE, "replays", pid)
+    d = os.path.join(os.environ.get("VERIF_REPLAY_DIR", os.path.join(HERE, "replays")), pid)
     os.makedirs(d, exist_ok=True)
     body = {"property": pid, "signature": signature, "message": message,
             "case": case, "seed": seed, "tier": tier}
@@ -139,7 +139,7 @@ def write_replay(pid, signature, message, case, seed, tier):
     path = os.path.join(d, name)
     with open(path, "w") as f:
         f.write(text)
-    return os.path.relpath(path, HERE)
+    return os.path.relpath(path, HERE) if path.startswith(HERE + os.sep) else path
 
 
 def run_pool(tasks, procs=None):
@@ -258,8 +258,9 @@ def run_property(pid, tier, seed, replay_path=None):
         "wall_s": round(wall, 2),
         "violations": len(failures),
     }
-    os.makedirs(os.path.join(HERE, "evidence"), exist_ok=True)
-    with open(os.path.join(HERE, "evidence", pid + ".json"), "w") as f:
+    evdir = os.environ.get("VERIF_EVIDENCE_DIR", os.path.join(HERE, "evidence"))   # the mutant tools redirect this
+    os.makedirs(evdir, exist_ok=True)
+    with open(os.path.join(evdir, pid + ".json"), "w") as f:
         json.dump(evidence, f, indent=1, sort_keys=True, default=repr)
 
     floor = getattr(mod, "MIN_NONTRIVIAL", 2)
